@@ -1,5 +1,6 @@
 import gzip
 import zlib
+import codecs
 
 from io import StringIO, BytesIO, TextIOWrapper
 from queue import Queue
@@ -191,9 +192,12 @@ class HttpSource(Source[Union[str,Iterable[str]]]):
                 return decomp(b.read()).decode(charset)
         else:
             def chunks(decomp,charset,size,bites):
+                #we decode incrementally because a chunk can end in the middle of a multi-byte character
+                decode = codecs.getincrementaldecoder(charset)().decode
                 with bites as b:
                     while chunk := b.read(size):
-                        yield decomp(chunk).decode(charset)
+                        yield decode(decomp(chunk))
+                    yield decode(b'',True)
 
             return DelimSource(IterableSource(chunks(decomp,charset,chunk,bites))).read()
 
@@ -224,13 +228,16 @@ class DelimSource(Source[Iterable[str]]):
 
         if split_lines:
             for text in filter(None,self._source.read()):
-                lines = text.splitlines()
-                if pending:
-                    lines[0] = pending + lines[0]
-                    pending = None
-                if text[-1] not in '\r\n':
-                    pending = lines.pop()
-                yield from lines
+                lines = ((pending or '') + text).splitlines(True)
+                #the last line is kept back if it isn't terminated yet or if it
+                #ends with '\r' since the next text could start with the '\n' of a '\r\n'
+                ended   = lines[-1].splitlines()[0] != lines[-1] and lines[-1][-1] != '\r'
+                pending = None if ended else lines.pop()
+                for line in lines: yield line.splitlines()[0]
+
+            if pending is not None:
+                yield from pending.splitlines()
+                pending = None
         else:
             for text in filter(None,self._source.read()):
                 lines = text.split(delim)
